@@ -13,9 +13,9 @@ Stages (helper files under `XPathV/Lemmas/PathSem/`):
 * `Build`    — `build_pathpf`
 
 Standing assumptions of the main theorem: the document is well formed, the navigator implements
-`NamespaceURL()` (`cfg.nsIface = true`, the post-fix configuration) and the identity hash has no
-collision on the nodes of the document (`HashInj`, the documented NoFnvCollision assumption, needed
-for the ancestor axes which de-duplicate by hash).
+`NamespaceURL()` (`cfg.nsIface = true`, the post-fix configuration) and the node key is injective
+on the nodes of the document (`HashInj` — formerly the NoFnvCollision assumption, now the theorem
+`hashInj_holds` of `PathSem/Basic.lean` — needed for the ancestor axes which de-duplicate by key).
 -/
 namespace XPathV.PathSem
 open XPathV XPathV.Model
